@@ -29,8 +29,8 @@ HEADS = {
     "ScenarioLine": ["Scenario:", "Scenario Outline:", "Example:", "Scenario Template"],
     "ExamplesLine": ["Examples:", "Scenarios:"],
     "StepLine": ["Given ", "* ", "But ", "Then"],
-    "TagLine": ["@", "@a"],
-    "TableRow": ["|"],
+    "TagLine": ["@", "@a", "@a @"],
+    "TableRow": ["|", "|\\n|"],
     "Comment": ["#"],
     "Empty": [""],
     "DocStringSeparator": ['"""', "```"],
